@@ -16,7 +16,7 @@ use std::sync::{atomic::Ordering, Arc};
 
 use kira::{
 	sound::static_sound::StaticSoundHandle,
-	track::{TrackBuilder, TrackHandle, TrackPlaybackState},
+	track::{SpatialTrackBuilder, SpatialTrackHandle, TrackBuilder, TrackHandle, TrackPlaybackState},
 	AudioManager, AudioManagerSettings, Capacities, StartTime, Tween,
 };
 use serde::{Deserialize, Serialize};
@@ -46,7 +46,13 @@ pub enum ResumeAt {
 
 #[derive(Clone, Debug, Serialize, Deserialize, PartialEq)]
 pub enum Op {
-	AddTrack { parent: Option<usize>, persist: bool },
+	AddTrack {
+		parent: Option<usize>,
+		persist: bool,
+		/// a spatial track (at the listener's position) instead of a plain one
+		#[serde(default)]
+		spatial: bool,
+	},
 	PlayProbe { track: usize, finish_after: Option<u64> },
 	/// a static DC sound with a start delay (seconds)
 	PlayDelayed { track: usize, delay: f64 },
@@ -93,6 +99,7 @@ fn gen_case(seed: u64, tier: Tier) -> Case {
 				Op::AddTrack {
 					parent: if nt > 1 && rng.chance(0.6) { Some(rng.usize_below(nt - 1)) } else { None },
 					persist: rng.chance(0.35),
+					spatial: rng.chance(0.25),
 				}
 			}
 			1 if nt > 0 && ns < 30 => {
@@ -164,10 +171,49 @@ enum PauseM {
 	Waiting { wake_lo: f64, wake_hi: f64, tween: f64, clock: Option<u64> },
 }
 
+/// a plain or a spatial sub-track handle (the same life-cycle rules apply to both)
+enum AnyTrack {
+	Plain(TrackHandle),
+	Spatial(SpatialTrackHandle),
+}
+
+macro_rules! any_track {
+	($s:expr, $h:ident => $e:expr) => {
+		match $s {
+			AnyTrack::Plain($h) => $e,
+			AnyTrack::Spatial($h) => $e,
+		}
+	};
+}
+
+impl AnyTrack {
+	fn add_sub_track(&mut self, b: TrackBuilder) -> Result<AnyTrack, kira::ResourceLimitReached> {
+		any_track!(self, h => h.add_sub_track(b)).map(AnyTrack::Plain)
+	}
+	fn add_spatial_sub_track(&mut self, l: kira::listener::ListenerId, pos: mint::Vector3<f32>, b: SpatialTrackBuilder) -> Result<AnyTrack, kira::ResourceLimitReached> {
+		any_track!(self, h => h.add_spatial_sub_track(l, pos, b)).map(AnyTrack::Spatial)
+	}
+	fn play<D: kira::sound::SoundData>(&mut self, d: D) -> Result<D::Handle, kira::PlaySoundError<D::Error>> {
+		any_track!(self, h => h.play(d))
+	}
+	fn pause(&mut self, t: Tween) {
+		any_track!(self, h => h.pause(t))
+	}
+	fn resume(&mut self, t: Tween) {
+		any_track!(self, h => h.resume(t))
+	}
+	fn resume_at(&mut self, st: StartTime, t: Tween) {
+		any_track!(self, h => h.resume_at(st, t))
+	}
+	fn state(&self) -> TrackPlaybackState {
+		any_track!(self, h => h.state())
+	}
+}
+
 struct MT {
 	parent: Option<usize>,
 	persist: bool,
-	handle: Option<TrackHandle>,
+	handle: Option<AnyTrack>,
 	fx: Arc<ProbeShared>,
 	first_cb: u64,
 	marked_gap: Option<u64>,
@@ -234,6 +280,10 @@ pub fn run_case(case: &Case) -> CaseResult {
 	});
 	let Ok(mut manager) = manager else { return res };
 	let device = manager.backend_mut().device.clone();
+	// the listener of the spatial tracks: alive for the whole case, at the tracks' own position
+	let Ok(listener) = manager.add_listener(mint::Vector3 { x: 0.0f32, y: 0.0, z: 0.0 }, mint::Quaternion { v: mint::Vector3 { x: 0.0f32, y: 0.0, z: 0.0 }, s: 1.0 }) else {
+		return res;
+	};
 	let mut clock = manager.add_clock(kira::clock::ClockSpeed::TicksPerSecond(sr as f64 / case.ibs as f64 / 4.0)).ok();
 	let clock_id = clock.as_ref().map(|c| c.id());
 	let mut clock_started = false;
@@ -249,13 +299,26 @@ pub fn run_case(case: &Case) -> CaseResult {
 
 	'ops: for (oi, op) in case.ops.iter().enumerate() {
 		match op {
-			Op::AddTrack { parent, persist } => {
+			Op::AddTrack { parent, persist, spatial } => {
 				let parent = parent.filter(|p| tracks.get(*p).map(|t| t.handle.is_some()).unwrap_or(false));
-				let mut b = TrackBuilder::new().sound_capacity(32).sub_track_capacity(16).persist_until_sounds_finish(*persist);
-				let fx = b.add_effect(ProbeEffectBuilder { gain: 1.0, offset: (0.0, 0.0) });
-				let r = match parent {
-					None => manager.add_sub_track(b),
-					Some(p) => tracks[p].handle.as_mut().unwrap().add_sub_track(b),
+				let (r, fx) = if *spatial {
+					res.hit("spatial_tracks");
+					let mut b = SpatialTrackBuilder::new().sound_capacity(32).sub_track_capacity(16).persist_until_sounds_finish(*persist);
+					let fx = b.add_effect(ProbeEffectBuilder { gain: 1.0, offset: (0.0, 0.0) });
+					let (lid, pos) = (listener.id(), mint::Vector3 { x: 0.0f32, y: 0.0, z: 0.0 });
+					let r = match parent {
+						None => manager.add_spatial_sub_track(lid, pos, b).map(AnyTrack::Spatial),
+						Some(p) => tracks[p].handle.as_mut().unwrap().add_spatial_sub_track(lid, pos, b),
+					};
+					(r, fx)
+				} else {
+					let mut b = TrackBuilder::new().sound_capacity(32).sub_track_capacity(16).persist_until_sounds_finish(*persist);
+					let fx = b.add_effect(ProbeEffectBuilder { gain: 1.0, offset: (0.0, 0.0) });
+					let r = match parent {
+						None => manager.add_sub_track(b).map(AnyTrack::Plain),
+						Some(p) => tracks[p].handle.as_mut().unwrap().add_sub_track(b),
+					};
+					(r, fx)
 				};
 				match r {
 					Ok(h) => tracks.push(MT {
@@ -803,7 +866,7 @@ impl Check for C12 {
 		CheckInfo {
 			id: "C12",
 			level: "exploration",
-			rule: "4% of the cases are scheduled (c12_sched.rs): a gameplay task adds child tracks / plays sounds on a parent and drops the parent's handle against an audio task running callbacks, judged at quiescence (a live child is still processed, an accepted sound on a persisting parent still played); or a reader task polls TrackHandle::state() while the audio task cancels a resume_at whose clock was removed; the others: each case = seeded history over {add (nested) track with persistence on / off, play a probe sound (optionally self-finishing), play a static sound with a start delay, stop a sound, drop one track handle (parents, children, in any order), pause with a fade, resume now / delayed / at a clock time / now with a fade-in tween that itself starts later, start / drop the clock, callback} at a seeded internal buffer size; non-trivial = at least one 'frozen' or 'removed' expectation was checked; distinct = hash of per-callback (states reported by the handles, live tracks)",
+			rule: "4% of the cases are scheduled (c12_sched.rs): a gameplay task adds child tracks / plays sounds on a parent and drops the parent's handle against an audio task running callbacks, judged at quiescence (a live child is still processed, an accepted sound on a persisting parent still played); or a reader task polls TrackHandle::state() while the audio task cancels a resume_at whose clock was removed; the others: each case = seeded history over {add (nested) track - plain or, a quarter of them, spatial at the listener's position - with persistence on / off, play a probe sound (optionally self-finishing), play a static sound with a start delay, stop a sound, drop one track handle (parents, children, in any order), pause with a fade, resume now / delayed / at a clock time / now with a fade-in tween that itself starts later, start / drop the clock, callback} at a seeded internal buffer size; non-trivial = at least one 'frozen' or 'removed' expectation was checked; distinct = hash of per-callback (states reported by the handles, live tracks)",
 			assumptions: vec![
 				"a track's own timers (pause fade, resume delay) run only while every track above it is advancing; the model keeps a lower and an upper bound of that local time and only demands what both bounds agree on".into(),
 				"removal is demanded two callbacks after nothing keeps the track alive (one for pick-up, one for the removal of finished sounds); until then either outcome is accepted".into(),
